@@ -281,30 +281,39 @@ func (b *OptionalBounds) Divide(pt Point3d) *OptionalBounds {
 	if b == nil {
 		return nil
 	}
+	// floor division: a negative voxel coordinate lies in a negative block, e.g. voxel -13 with
+	// block size 16 is in block -1, not 0.
+	floorDiv := func(a, n int32) int32 {
+		q := a / n
+		if (a%n != 0) && ((a < 0) != (n < 0)) {
+			q--
+		}
+		return q
+	}
 	newB := new(OptionalBounds)
 	if b.minx != nil {
 		newB.minx = new(int32)
-		*(newB.minx) = *(b.minx) / pt[0]
+		*(newB.minx) = floorDiv(*(b.minx), pt[0])
 	}
 	if b.maxx != nil {
 		newB.maxx = new(int32)
-		*(newB.maxx) = *(b.maxx) / pt[0]
+		*(newB.maxx) = floorDiv(*(b.maxx), pt[0])
 	}
 	if b.miny != nil {
 		newB.miny = new(int32)
-		*(newB.miny) = *(b.miny) / pt[1]
+		*(newB.miny) = floorDiv(*(b.miny), pt[1])
 	}
 	if b.maxy != nil {
 		newB.maxy = new(int32)
-		*(newB.maxy) = *(b.maxy) / pt[1]
+		*(newB.maxy) = floorDiv(*(b.maxy), pt[1])
 	}
 	if b.minz != nil {
 		newB.minz = new(int32)
-		*(newB.minz) = *(b.minz) / pt[2]
+		*(newB.minz) = floorDiv(*(b.minz), pt[2])
 	}
 	if b.maxz != nil {
 		newB.maxz = new(int32)
-		*(newB.maxz) = *(b.maxz) / pt[2]
+		*(newB.maxz) = floorDiv(*(b.maxz), pt[2])
 	}
 	return newB
 }
